@@ -28,7 +28,7 @@ for d in sorted(glob.glob(os.path.join(V, "seeded", "*"))):
         det += 1
     rows.append("| %s | %s | %s | %s | %s |" % (os.path.basename(d), (m.get("summary") or "").replace("|", "/")[:150], (m.get("needs") or "").replace("|", "/")[:110], fmt(q), fmt(t) if t else ""))
 text = ["## I.9 Seeded breaking changes: which checks catch which changes", "",
-        "Fresh sub-agents were given only the text of a property and a scratch worktree, and asked for changes that break the property while compiling and passing the existing suite, needing something specific to manifest.  Each change was re-verified here (demo passes on the clean tree, suite passes with the change, demo fails with the change) before it was kept under `seeded/`.  `seed_eval.py run` applies each patch to /repo, runs the property's check and undoes it.",
+        "Fresh sub-agents were given only the text of a property and a scratch worktree, and asked for changes that break the property while compiling and passing the existing suite, needing something specific to manifest.  Each change was re-verified here (demo passes on the clean tree, suite passes with the change, demo fails with the change) before it was kept under `seeded/`.  `seed_eval.py run` applies each patch to a scratch worktree of /repo's HEAD, runs the property's registered quick check against it (VERIF_REPO / VERIF_OUT, so neither /repo nor evidence/ is touched) and records the outcome; the table below is from one complete re-evaluation of all changes on the final tree (harnesses named are the ones that fired; several harnesses are shared between properties).",
         "", "%d of %d kept changes are detected (VIOLATION, exit 1) by the registered checks." % (det, tot), "",
         "| change | what it does | needs | quick tier | thorough tier |", "|---|---|---|---|---|"] + rows
 s = open(os.path.join(V, "DESIGN.md")).read()
